@@ -124,7 +124,10 @@ def inject(doc, kinds, fault, rng):
     igns = [c for c, k in kinds.items() if k == "ignored"]
     bearing = cats + vals
     import re
-    has_ref = {c: bool(re.search(r"\{", json.dumps(d[c]["HED"]))) for c in bearing}
+    def _texts(c):
+        h = d[c]["HED"]
+        return list(h.values()) if isinstance(h, dict) else [h]
+    has_ref = {c: any("{" in t for t in _texts(c) if isinstance(t, str)) for c in bearing}
     if fault == "category-value-not-string":
         if not cats:
             return None
@@ -189,12 +192,13 @@ def inject(doc, kinds, fault, rng):
             if not others:
                 return None
             o = others[0]
-            third = [x for x in bearing if x not in (c, o)]
+            third = [x for x in bearing if x not in (c, o) and not has_ref[x]]
+            inner = rng.choice(third + ["HED"])            # the inner reference may be the reserved {HED}
             if kinds[o] == "categorical":
                 ok = rng.choice(list(d[o]["HED"]))
-                d[o]["HED"][ok] += ", {" + (third[0] if third else "HED") + "}"
+                d[o]["HED"][ok] += ", {" + inner + "}"
             else:
-                d[o]["HED"] += ", {" + (third[0] if third else "HED") + "}"
+                d[o]["HED"] += ", {" + inner + "}"
             d[c]["HED"][k] += ", {" + o + "}"
     return d
 
@@ -242,6 +246,13 @@ def run_shard(shard, rec):
             case = dict(kind="B", doc=bad, version=v, fault=fault)
             rec.case(json.dumps(bad, sort_keys=True))
             check_expect(case, rec)
+
+
+def finalize(merged, tier, inconclusive):
+    seen = merged.hist.get("fault", {})
+    for f in FAULTS:
+        if seen.get(f, 0) < 5:
+            inconclusive.append(f"fault kind '{f}' was exercised {seen.get(f, 0)} times (< 5)")
 
 
 def replay(case, rec):
